@@ -132,7 +132,7 @@ impl Monitor for C20 {
 }
 
 pub fn run(p: &Params) -> Report {
-    let total = p.n(400, 8000);
+    let total = p.n(1500, 40000);
     let mine = p.share(total);
     let mut rng = Rng::new(p.shard_seed() ^ 0xC20);
     let mut mon = C20 { rep: Report::new("C20"), case_seed: 0 };
